@@ -253,6 +253,11 @@ func (w world) runInputs(ins []input, shared bool, withCard bool, st *super.Stat
 				o := doParse(in, si, ai, withCard)
 				synctest.Wait()
 				after := runtime.NumGoroutine()
+				if super.Noting() {
+					// (the raw goroutine count is not part of the outcome: runtime helper goroutines outside the bubble come and go)
+					// the error TEXT is not part of it either: which of several cardinality errors is named first follows Go's map order (not C07's business)
+					super.Note(in.name, fmt.Sprint(o.err != nil), fmt.Sprint(o.panicked), fmt.Sprint(o.tree != nil && o.tree.Root != nil))
+				}
 				if st != nil {
 					st.Inc("parses")
 					if o.err == nil && !o.panicked {
